@@ -92,4 +92,10 @@ CHECKS.update({
         note="the macro bodies are the same code the SI instantiates; what is new here is the instantiation, which the translator reads from the harness source",
         technique="Lean 4 proof (system-generic theorems + kernel-decided generated table) + correspondence check on a macro-declared system"),
 })
+CHECKS.update({
+    'C04': dict(
+        text="PARTIAL. Lean 4 proves what makes the zero-cost claim legal: the layout description regenerated from struct Quantity (repr(transparent), one non-PhantomData field value: V; conversion kernel inline(always)) and that the folded normal forms compute exactly what to_base/from_base/change_base compute for every canonical value (v + (−0.0) vanishes, identity in the own base unit, one folded constant per branch, same-base change_base is the identity). That the optimiser performs the folding, and the call ABI, are shown only by the correspondence: 244 pairs (quantity-level function, bare-number reference generated from the Lean fold with bit-pattern constants) compiled with --release --emit=asm and compared instruction by instruction; size/align assertions and 14 trait capabilities × 13 storage types compared between the quantity and its storage type with rustc",
+        note="LLVM code generation and the platform ABI cannot be expressed in the Lean model; x86-64 release profile of the installed toolchain only",
+        technique="Lean 4 proof (fold legality + generated layout description) + machine-code equality against model-generated references"),
+})
 NOT_APPLICABLE = {}
